@@ -10,6 +10,11 @@ CFG = dict(
         "table_canon_empty", "table_face_canonical", "table_cell_flow", "table_face_consistent",
         # gluing: arbitrary box, arbitrary sign pattern, boundary layer outside
         "march_closed_balanced",
+        # block storage
+        "blockFetch_eq_global", "fetchCell_eq_global", "skipped_cells_outside", "addField_axis_partition",
+        "addField_allocates_neighbourhood",
+        # interpolation / isosurface
+        "interp_between", "interp_on_segment", "interp_symmetric", "vertex_near_isosurface",
     ],
     streams=[dict(name="c09", n=dict(quick=8, thorough=120), timeout=dict(quick=600, thorough=3600))],
     trusted=T_COMMON + [
